@@ -346,6 +346,8 @@ impl Polynomial<Cmplx> {
             } else {
                 Cmplx::polar( 1.0 + abx, iter as f64 )
             };
+            // A non-finite step (g * g overflows next to a root at zero) cannot improve the estimate
+            if !( dx.real.is_finite() && dx.imag.is_finite() ) { return; }
             let x1 = *x - dx;
             if *x == x1 { return; }
             if iter % MT != 0 { *x = x1; } else { *x -= dx * frac[ iter / MT ]; }
